@@ -64,8 +64,17 @@ func sysH(s *simrt.Sim, t *simrt.Task, r *simrt.Req) simrt.Status {
 	var errno syscall.Errno
 	fault := ""
 	short := -1
+	if k.opCount == nil {
+		k.opCount = map[string]int{}
+	}
+	nth := k.opCount[opNames[op]]
+	k.opCount[opNames[op]]++
 	for _, f := range k.cfg.Faults {
-		if f.At != n {
+		if f.Op != "" {
+			if f.Op != opNames[op] || nth < f.At || (nth > f.At && !f.Sticky) {
+				continue
+			}
+		} else if f.At != n {
 			continue
 		}
 		switch f.Kind {
@@ -449,6 +458,16 @@ func Pread(fd int, p []byte, offset int64) (n int, err error) {
 }
 
 //go:norace
+func slowFsync() int64 {
+	s := simrt.Active()
+	k, _ := s.Kern.(*Kernel)
+	if k == nil {
+		return 0
+	}
+	return k.cfg.SlowFsyncNs
+}
+
+//go:norace
 func splitPwrite() bool {
 	s := simrt.Active()
 	k, _ := s.Kern.(*Kernel)
@@ -501,6 +520,9 @@ func Fsync(fd int) error {
 	if realMode() {
 		simrt.Yield(-10)
 		return unix.Fsync(fd)
+	}
+	if d := slowFsync(); d > 0 && !simrt.Unwinding() {
+		simrt.Sleep(d) // a flush is slow: whoever is runnable gets to run first
 	}
 	var r simrt.Req
 	r.I0 = int64(fd)
